@@ -76,6 +76,27 @@ func TestVerifC15(t *testing.T) {
 		rec.sample(point, 1, desc)
 	}
 
+	// ---- part 1b: more new peers than the accept backlog holds, then shutdown ----
+	for q := 0; q < env.pickN(8, 160); q++ {
+		idx := caseIdx
+		caseIdx++
+		if !env.mine(idx) {
+			continue
+		}
+		rng := rec.seed(uint64(idx), 152)
+		sc := c11Scenario{Case: idx, Part: "backlog", Clients: 128 + rng.between(3, 20), Bytes: 300,
+			Net: netProfile{Name: "clean", DelayMin: 2, DelayMax: 6, HealAt: 1}}
+		sc.Link.Cipher = pick(rng, cipherNames)
+		if rng.chance(0.5) {
+			sc.Link.D, sc.Link.P = 2, 1
+		}
+		rec.beginCase(sc)
+		synctest.Test(t, func(t *testing.T) { runC11(t, rec, &sc, rng) })
+		rec.eval(1)
+		rec.count("backlog_overflow_shutdown_scenarios", 1)
+		rec.nontrivial(hashAny(sc))
+	}
+
 	// ---- part 2: pool sanitizer over the FEC code paths that recycle most -------
 	sanEnabled.Store(true)
 	installHooks()
